@@ -397,6 +397,15 @@ fn runtime_cases() -> Vec<Case> {
         ("in_imported_macro", vec![("main", "{% from 'lib' import lm %}\n\n{{ lm() }}"), ("lib", "{% macro lm() %}\nq\n{F}\n{% endmacro %}")], "main", "lib"),
         ("in_imported_toplevel", vec![("main", "x\n{% import 'lib' as l %}"), ("lib", "q\n{F}\n")], "main", "lib"),
         ("in_recursive_loop", vec![("main", "{% for i in [[1]] recursive %}\n{% if i is iterable %}{{ loop(i) }}{% else %}\n{F}\n{% endif %}{% endfor %}")], "main", "main"),
+        // multi-line tokens before the failing construct: the line counter has to follow them
+        ("after_multiline_string", vec![("main", "{{ 'a\nb\nc' }}\n{{ \"d\ne\" ~ 'f' }}\n{F}\nz")], "main", "main"),
+        ("after_multiline_string_in_block_tag", vec![("main", "{% set q = 'a\n\nb' %}{% if 'x\ny' %}\n{F}{% endif %}")], "main", "main"),
+        ("after_multiline_tag", vec![("main", "{% set q = [1,\n  2,\n  3] %}\n{{ q|join(\n',') }}\n{F}")], "main", "main"),
+        ("after_multiline_comment", vec![("main", "{# a\nb\nc #}\n{F}")], "main", "main"),
+        ("after_multiline_raw", vec![("main", "{% raw %}\n{{ x }}\n{% endraw %}\n{F}")], "main", "main"),
+        ("after_crlf_lines", vec![("main", "a\r\nb\r\n{{ 'c\r\nd' }}\r\n{F}")], "main", "main"),
+        ("after_multiline_string_in_macro_args", vec![("main", "{% macro mm(a) %}{{ a }}{{ caller() if caller is defined }}{% endmacro %}{{ mm('1\n2\n3') }}\n{% call mm('x\ny') %}{% endcall %}\n{F}")], "main", "main"),
+        ("in_included_after_multiline_string", vec![("main", "{{ 'a\nb' }}{% include 'inc' %}"), ("inc", "{{ 'p\nq\nr' }}\n{F}")], "main", "inc"),
         ("three_level", vec![("main", "{% extends 'mid' %}"), ("mid", "{% extends 'base' %}\n{% block b %}\n{{ super() }}\n{% endblock %}"), ("base", "{% block b %}\n\n\n{F}{% endblock %}")], "main", "base"),
     ];
     let mut out = vec![];
@@ -455,7 +464,7 @@ pub fn main(args: Args) -> i32 {
             level: "exploration",
             tier: args.tier,
             seed: args.seed,
-            rule: "syntax errors: a corpus of 29 hand-written templates covering every tag and literal form plus every 13th depth-1 generator program, truncated at every character boundary (also with multi-byte text in front) and with 12 stray tokens inserted at every (quick: every other) boundary, plus 37 classic faults; run-time errors: 21 failing constructs x 18 placements (plain, for, if/else, with, macro, call block, set block, filter block, autoescape, child block, parent block, super, include, include in loop, imported macro, import top level, recursive loop, three-level inheritance) with the expected template and line computed from the placement; every failing case is re-run with 1/17/65 533 (thorough also 2) filler lines above (LF and CRLF) and with 3-byte, multi-byte and 70 000-byte prefixes; oracle: located name+line inside the named source for the error and every located cause, kind/detail/name unchanged and line shifted by exactly N, ranges in bounds, on char boundaries, equal to the named template's source and shifted by the inserted byte count, all five formatting forms succeed. distinct non-trivial = distinct failing template sets".into(),
+            rule: "syntax errors: a corpus of 29 hand-written templates covering every tag and literal form plus every 13th depth-1 generator program, truncated at every character boundary (also with multi-byte text in front) and with 12 stray tokens inserted at every (quick: every other) boundary, plus 37 classic faults; run-time errors: 21 failing constructs x 26 placements (plain, for, if/else, with, macro, call block, set block, filter block, autoescape, child block, parent block, super, include, include in loop, imported macro, import top level, recursive loop, three-level inheritance, and after multi-line string literals / tags / comments / raw blocks / CRLF lines) with the expected template and line computed from the placement; every failing case is re-run with 1/17/65 533 (thorough also 2) filler lines above (LF and CRLF) and with 3-byte, multi-byte and 70 000-byte prefixes; oracle: located name+line inside the named source for the error and every located cause, kind/detail/name unchanged and line shifted by exactly N, ranges in bounds, on char boundaries, equal to the named template's source and shifted by the inserted byte count, all five formatting forms succeed. distinct non-trivial = distinct failing template sets".into(),
             exhaustive: true,
             bound: json!({"vertical": [1, 2, 17, 65533], "horizontal": [3, 5, 70000]}),
             assumptions: vec!["Strict undefined mode so that undefined reads are errors".into(), "cases that compile and render successfully are skipped (counted in the outcome histogram)".into()],
